@@ -14,7 +14,8 @@ Property theorems only (helper lemmas live in `CrabProofs/Lemmas`).  Models:
 `linear_constraint_system` over `z_number`), `Crab.Lin.Term` / `CTerm` (construction histories).
 Every statement quantifies over all numbers / expressions / valuations.  Where the code as it is
 violates the full statement, the statement is kept as a `def …_Statement`, with a `_partial`
-theorem (explicit decidable hypothesis) and a `_counterexample`.
+theorem (explicit decidable hypothesis) and a `_counterexample` (left: shift amounts `≥ 2^64`,
+and the `mpz_import` construction path that is dead code on LP64).
 -/
 open Crab
 
@@ -133,55 +134,33 @@ theorem C20.z_fill_ones_spec (x : Int) (hx : 0 ≤ x) :
 
 /-! ## q_number -/
 
-/-- `round_to_lower` is the floor for every pair with a non-zero denominator: violated by pairs
-    with a negative denominator, which `q_number(num, den)` stores without canonicalising -/
-def C20.q_round_lower_Statement : Prop :=
-  ∀ q : QNum, q.den ≠ 0 → QNum.roundToLower q = some q.toRat.floor
+/-- `q_number(num, den)`: CRAB_ERROR exactly on a zero denominator; otherwise (denominator of
+    either sign, common factors allowed) the stored pair is canonical and denotes `num / den` -/
+theorem C20.q_constructor (n d : Int) :
+    (QNum.mk? n d = none ↔ d = 0) ∧
+    (d ≠ 0 → ∃ q, QNum.mk? n d = some q ∧ q.Canonical ∧ q.toRat = Rat.divInt n d) :=
+  ⟨QNum.mk?_none_iff n d, QNum.mk?_spec n d⟩
 
-theorem C20.q_round_lower_partial (q : QNum) (h : 0 < q.den) :
-    QNum.roundToLower q = some q.toRat.floor := QNum.roundToLower_floor q h
+/-- `round_to_lower` is the floor, for ALL pairs with a non-zero denominator -/
+theorem C20.q_round_lower (n d : Int) (h : d ≠ 0) :
+    ∃ q, QNum.mk? n d = some q ∧ QNum.roundToLower q = some (Rat.divInt n d).floor :=
+  QNum.roundToLower_mk n d h
 
-theorem C20.q_round_lower_counterexample : ¬ C20.q_round_lower_Statement := by
-  intro h
-  have h1 := h ⟨3, -2⟩ (by decide)
-  have h2 : QNum.roundToLower ⟨3, -2⟩ = some (-1) := by decide
-  have h3 : (QNum.toRat ⟨3, -2⟩).floor = -2 := by
-    have : QNum.toRat ⟨3, -2⟩ = Rat.divInt (-3) 2 := by
-      show Rat.divInt 3 (-2) = Rat.divInt (-3) 2
-      rw [Rat.divInt_neg']
-    rw [this, QNum.floor_divInt _ _ (by decide)]
-    decide
-  rw [h2, h3] at h1
-  exact absurd h1 (by decide)
+/-- `round_to_upper` is the ceiling, for ALL pairs with a non-zero denominator -/
+theorem C20.q_round_upper (n d : Int) (h : d ≠ 0) :
+    ∃ q, QNum.mk? n d = some q ∧ QNum.roundToUpper q = some (Rat.divInt n d).ceil :=
+  QNum.roundToUpper_mk n d h
 
-/-- on the raw pair: floor division of the numerator by the (positive) denominator -/
-theorem C20.q_round_lower_int (q : QNum) (h : 0 < q.den) :
-    QNum.roundToLower q = some (q.num / q.den) := QNum.roundToLower_pos q h
+/-- on any stored pair with a positive denominator (every value of the class): floor / ceiling of
+    the denoted rational, i.e. floor division of the raw numerator by the raw denominator -/
+theorem C20.q_round_stored (q : QNum) (h : 0 < q.den) :
+    QNum.roundToLower q = some q.toRat.floor ∧ QNum.roundToUpper q = some q.toRat.ceil ∧
+    QNum.roundToLower q = some (q.num / q.den) ∧ QNum.roundToUpper q = some (-((-q.num) / q.den)) :=
+  ⟨QNum.roundToLower_floor q h, QNum.roundToUpper_ceil q h, QNum.roundToLower_pos q h,
+   QNum.roundToUpper_pos q h⟩
 
-/-- `round_to_upper` is the ceiling (same restriction) -/
-def C20.q_round_upper_Statement : Prop :=
-  ∀ q : QNum, q.den ≠ 0 → QNum.roundToUpper q = some q.toRat.ceil
-
-theorem C20.q_round_upper_partial (q : QNum) (h : 0 < q.den) :
-    QNum.roundToUpper q = some q.toRat.ceil := QNum.roundToUpper_ceil q h
-
-theorem C20.q_round_upper_counterexample : ¬ C20.q_round_upper_Statement := by
-  intro h
-  have h1 := h ⟨3, -2⟩ (by decide)
-  have h2 : QNum.roundToUpper ⟨3, -2⟩ = some 0 := by decide
-  have h3 : (QNum.toRat ⟨3, -2⟩).ceil = -1 := by
-    have : QNum.toRat ⟨3, -2⟩ = Rat.divInt (-3) 2 := by
-      show Rat.divInt 3 (-2) = Rat.divInt (-3) 2
-      rw [Rat.divInt_neg']
-    rw [this, QNum.ceil_divInt _ _ (by decide)]
-    decide
-  rw [h2, h3] at h1
-  exact absurd h1 (by decide)
-
-theorem C20.q_round_upper_int (q : QNum) (h : 0 < q.den) :
-    QNum.roundToUpper q = some (-((-q.num) / q.den)) := QNum.roundToUpper_pos q h
-
-/-- the rounding functions raise CRAB_ERROR exactly on a zero denominator -/
+/-- on a raw pair the rounding functions raise CRAB_ERROR exactly on a zero denominator (which the
+    constructor no longer lets through) -/
 theorem C20.q_round_error_iff (q : QNum) :
     (QNum.roundToLower q = none ↔ q.den = 0) ∧ (QNum.roundToUpper q = none ↔ q.den = 0) :=
   ⟨QNum.roundToLower_none_iff q, QNum.roundToUpper_none_iff q⟩
@@ -285,18 +264,9 @@ theorem C20.lin_canonical_preserved (a b : Expr) (n : Int) (x : Var) (m : List (
 theorem C20.lin_history_value (t : Term) (σ : Var → Int) :
     t.interp.Sorted ∧ t.interp.eval σ = t.den σ := ⟨Term.interp_sorted t, Term.eval_interp t σ⟩
 
-/-- every expression built through the public interface is canonical: violated by
-    `linear_expression(Number 0, variable)` (also reached by `0 * x`), which stores the entry -/
-def C20.lin_canonical_Statement : Prop := ∀ t : Term, t.interp.Canonical
-
-theorem C20.lin_canonical_partial (t : Term) (h : t.NoZeroLeaf) : t.interp.Canonical :=
-  Term.interp_canonical t h
-
-theorem C20.lin_canonical_counterexample : ¬ C20.lin_canonical_Statement := by
-  intro h
-  have := (h (.term 0 1)).2
-  revert this
-  decide
+/-- every expression built through the public interface is canonical (sorted map without zero
+    coefficient), `0 * x` and `linear_expression(Number 0, variable)` included -/
+theorem C20.lin_canonical (t : Term) : t.interp.Canonical := Term.interp_canonical t
 
 /-- `equal` is equality of the stored maps and constants -/
 theorem C20.lin_equal_iff (e o : Expr) : e.equal o = true ↔ e = o := Expr.equal_iff e o
@@ -325,27 +295,21 @@ theorem C20.lin_tests_exact_on_constants (c : Cst) (hc : c.expr.isConstant = tru
 theorem C20.lin_tests_false_otherwise (c : Cst) (hc : c.expr.isConstant = false) :
     c.isTautology = false ∧ c.isContradiction = false := Cst.tests_false_of_not_constant hc
 
-/-- the tests are exact on every constraint whose expression denotes a constant function:
-    violated when a zero coefficient is stored (`0*x - 5 <= 0` is not recognised) -/
-def C20.lin_tests_semantic_Statement : Prop :=
-  ∀ c : Cst, c.expr.Sorted → (∃ k, ∀ σ, c.expr.eval σ = k) →
-    ((c.isTautology = true ↔ ∀ σ, c.sat σ) ∧ (c.isContradiction = true ↔ ∀ σ, ¬ c.sat σ))
-
-theorem C20.lin_tests_semantic_partial (c : Cst) (hc : c.expr.Canonical)
+/-- the tests are exact on every canonical constraint whose expression denotes a constant
+    function ... -/
+theorem C20.lin_tests_semantic_canonical (c : Cst) (hc : c.expr.Canonical)
     (hk : ∃ k, ∀ σ, c.expr.eval σ = k) :
     (c.isTautology = true ↔ ∀ σ, c.sat σ) ∧ (c.isContradiction = true ↔ ∀ σ, ¬ c.sat σ) := by
   obtain ⟨k, hk⟩ := hk
   exact C20.lin_tests_exact_on_constants c (Expr.isConstant_of_constant_fun hc k hk)
 
-theorem C20.lin_tests_semantic_counterexample : ¬ C20.lin_tests_semantic_Statement := by
-  intro h
-  have h1 := (h ⟨Expr.addNum (Expr.term 0 1) (-5), .leq⟩ (by decide)
-    ⟨-5, fun σ => by simp [Expr.eval_addNum]⟩).1
-  have h2 : (∀ σ, (⟨Expr.addNum (Expr.term 0 1) (-5), .leq⟩ : Cst).sat σ) := by
-    intro σ; simp [Cst.sat, Expr.eval_addNum]
-  have h3 := h1.2 h2
-  revert h3
-  decide
+/-- ... hence on every constraint built through the public interface (constructors, relational
+    operators, negate, strict-to-non-strict, rename) that denotes a constant function:
+    `0*x - 5 <= 0` is recognised as a tautology -/
+theorem C20.lin_tests_semantic (c : CTerm) (r : Cst) (h : c.interp = some r)
+    (hk : ∃ k, ∀ σ, r.expr.eval σ = k) :
+    (r.isTautology = true ↔ ∀ σ, r.sat σ) ∧ (r.isContradiction = true ↔ ∀ σ, ¬ r.sat σ) :=
+  C20.lin_tests_semantic_canonical r (CTerm.interp_canonical h) hk
 
 /-- strict to non-strict over the integers: `e < 0` and `e + 1 <= 0` have the same solutions -/
 theorem C20.lin_strict_to_non_strict (c r : Cst) (h : c.strictToNonStrict? = some r) (σ : Var → Int) :
@@ -361,7 +325,7 @@ theorem C20.lin_cst_rename (c : Cst) (h : c.expr.Sorted) (m : List (Var × Var))
 /-- whole histories of constraints (constructors, relational operators, negate,
     strict-to-non-strict, rename): the result holds exactly where the history's meaning holds -/
 theorem C20.lin_history_constraint (c : CTerm) (r : Cst) (h : c.interp = some r) (σ : Var → Int) :
-    r.sat σ ↔ c.den σ := CTerm.sat_interp h σ
+    r.expr.Canonical ∧ (r.sat σ ↔ c.den σ) := ⟨CTerm.interp_canonical h, CTerm.sat_interp h σ⟩
 
 /-! ## constraint systems -/
 
@@ -387,18 +351,24 @@ example : ZNum.div? (-7) 2 = some (-3) ∧ ZNum.rem? (-7) 2 = some (-1) ∧ ZNum
   decide
 
 example : QNum.roundToLower ⟨-7, 2⟩ = some (-4) ∧ QNum.roundToUpper ⟨-7, 2⟩ = some (-3) ∧
-    QNum.roundToLower ⟨7, 0⟩ = none := by decide
+    QNum.roundToLower ⟨7, 0⟩ = none ∧ QNum.mk? 7 0 = none := by decide
 
 example : SafeInt.inRange (2 ^ 63 - 1) = true ∧ SafeInt.add (2 ^ 63 - 1) 1 = none ∧
     SafeInt.mul (-(2 ^ 63)) (-1) = none ∧ SafeInt.div (-(2 ^ 63)) (-1) = .err ∧
     SafeInt.mul 3037000499 3037000499 = some 9223372030926249001 := by decide
 
-example : (Term.add (.term 2 0) (.term 3 1)).interp.Canonical ∧
-    (Term.add (.term 2 0) (.term 3 1)).NoZeroLeaf ∧
-    (Term.sub (.term 2 0) (.term 2 0)).interp = Expr.const 0 := by decide
+example : (Term.add (.term 2 0) (.term 3 1)).interp = ⟨[(0, 2), (1, 3)], 0⟩ ∧
+    (Term.term 0 1).interp = Expr.const 0 ∧
+    (Term.sub (.term 2 0) (.term 2 0)).interp = Expr.const 0 ∧
+    (CTerm.mk .leq (.addn (.term 0 1) (-5))).interp = some ⟨Expr.const (-5), .leq⟩ ∧
+    Cst.isTautology ⟨Expr.const (-5), .leq⟩ = true := by decide
 
 example : Sys.normalize [⟨Expr.term 2 1, .leq⟩, ⟨Expr.term (-2) 1, .leq⟩, ⟨Expr.var 0, .lt⟩]
     = [⟨Expr.term 2 1, .eq⟩, ⟨Expr.var 0, .lt⟩] := by decide
 
 example : Cst.negate ⟨Expr.addNum (Expr.var 0) (-3), .leq⟩ = ⟨Expr.addNum (Expr.term (-1) 0) 4, .leq⟩ := by
   decide
+
+example : QNum.mk? 3 (-2) = some ⟨-3, 2⟩ ∧ QNum.mk? 4 (-6) = some ⟨-2, 3⟩ ∧
+    (QNum.mk? 3 (-2)).bind QNum.roundToUpper = some (-1) ∧
+    (QNum.mk? 3 (-2)).bind QNum.roundToLower = some (-2) := by decide
